@@ -389,6 +389,10 @@ class Interp:
             if base[0] == 'elem':
                 p.ev('slot_write', slot=base, value=val, ln=stmt['ln'], fn=fn.dp, block=b)
                 return
+            if base[0] == 'elemf':
+                # `*pointer = ..` where `pointer = &mut slot.0` (destructured column slot)
+                p.ev('slot_field_write', slot=('elem', base[1], base[2], base[3], True), f=base[4], value=val, ln=stmt['ln'], fn=fn.dp, block=b)
+                return
             if base[0] in ('slice', 'vec', 'sliceelem'):
                 p.ev('elem_write', target=base, value=val, ln=stmt['ln'], fn=fn.dp, block=b)
                 return
@@ -624,6 +628,10 @@ class Interp:
                     return target
                 p.ev('vec_method', name=name, vec=recv, args=[self.unwrap_md(self.deref_arg(p, a)) for a in args[1:]], gargs=[ty_key(strip_regions(g)) for g in gargs], ln=ln, fn=fn.dp, block=b, unwind=unwind,
                      unwrapped=not p.env.get(('wrapped', recv[1]), False))
+                if name in ('to_vec', 'to_owned', 'into_vec') and recv[0] in ('vec', 'fresh'):
+                    oid = self.new_obj(p)
+                    setd(('fresh', oid, recv[2], 'clone'))
+                    return target
                 if name == 'clone' and trait == 'core::clone::Clone':
                     oid = self.new_obj(p)
                     nv = ('fresh', oid, recv[2], 'clone')
@@ -632,6 +640,13 @@ class Interp:
                     setd(('md', nv) if orig[0] == 'md' else nv)
                     return target
                 setd(('vecret', name, recv))
+                return target
+        if name in ('to_vec', 'to_owned', 'into_vec') and args:
+            recv0 = self.unwrap_md(self.deref_arg(p, args[0]))
+            if recv0[0] == 'slice':
+                oid = self.new_obj(p)
+                p.ev('vec_method', name=name, vec=recv0, args=[], gargs=[ty_key(strip_regions(g)) for g in gargs], ln=ln, fn=fn.dp, block=b, unwind=unwind, unwrapped=False)
+                setd(('fresh', oid, recv0[2], 'clone'))
                 return target
         if name in ('with_capacity', 'new') and path.startswith('alloc::vec::Vec::<T>::') and gargs:
             oid = self.new_obj(p)
